@@ -246,6 +246,7 @@ def run(out, tier):
     C.build_lib("hooks")
     exe = C.build_harness("reader_harness")
     cov = out.coverage
+    os.makedirs(os.path.join(C.BUILD, "tlc"), exist_ok=True)
     tdir = tempfile.mkdtemp(prefix="c04.", dir=os.path.join(C.BUILD, "tlc"))
     try:
         # 1. the specification satisfies the property (runs concurrently with the binders)
@@ -315,6 +316,7 @@ def replay(out, path):
     """Re-run one recorded disagreement: a T case (hazard, refill point, offset) or a kept trace."""
     C.build_lib("hooks")
     exe = C.build_harness("reader_harness")
+    os.makedirs(os.path.join(C.BUILD, "tlc"), exist_ok=True)
     tdir = tempfile.mkdtemp(prefix="c04r.", dir=os.path.join(C.BUILD, "tlc"))
     try:
         if path.endswith(".ndjson"):
